@@ -438,6 +438,9 @@ func reifyValue(
 	if t.Kind() == reflect.Interface && t.NumMethod() == 0 {
 		reified, err := val.reify(opts.opts)
 		if err != nil {
+			if e, ok := err.(Error); ok && e.Path() != "" {
+				return reflect.Value{}, e
+			}
 			ctx := val.Context()
 			return reflect.Value{}, raisePathErr(err, val.meta(), "", ctx.path("."))
 		}
